@@ -84,6 +84,10 @@ class sx_str(metaclass=_StrMeta):
 
 
 def sx_len(x):
+    """len() that lets a memo model report an arbitrary larger size (see SymBidict.extra_len)"""
+    extra = getattr(x, "extra_len", None)
+    if extra is not None:
+        return builtins.len(x) + extra
     return builtins.len(x)
 
 
@@ -159,7 +163,7 @@ def sx_hash(x):
 
 BUILTINS = {
     "int": sx_int, "str": sx_str, "chr": core.sym_chr, "ord": core.sym_ord, "set": sx_set, "dict": sx_dict,
-    "sorted": sx_sorted, "hex": sx_hex, "hash": sx_hash,
+    "sorted": sx_sorted, "hex": sx_hex, "hash": sx_hash, "len": sx_len,
 }
 
 
